@@ -86,24 +86,33 @@ def showTag : Res TagAttrs → String
   | .valueError => "valueError"
   | .ok t => s!"ok {showCls t.cls} {t.listCls} x{bit t.isXml} {showItems t.items} R {showRender t.items}"
 
-/-- builder token `<listcls>` or `<listcls>x` (an XML-flavoured builder: `is_xml = True`) -/
+def parseMva (s : String) : MvaArg :=
+  if s == "default" then .useDefault
+  else match parseMap s with
+    | none => .none
+    | some m => .map m
+
+/-- builder options as given: map token (`default` = argument left out), dict class (`absent` = left out), list class
+    token `<n>` or `<n>x` (`0` = left out; `x` = an XML-flavoured builder class: `is_xml = True`, base default table) -/
 def mkCfg (m dcls lcls : String) : BuilderCfg :=
   let x := lcls.endsWith "x"
-  let n := if x then (lcls.dropEnd 1).toString else lcls
-  ⟨parseMap m, parseCls dcls, n.toNat!, x⟩
+  let n := (if x then (lcls.dropEnd 1).toString else lcls).toNat!
+  mkBuilder (if x then BS.Gen.c17BaseCdataListAttributes else BS.Gen.c17DefaultCdataListAttributes) x (parseMva m)
+    (if dcls == "absent" then none else some (parseCls dcls)) (if n == 0 then none else some n)
 
 def showRes : Res Items → String
   | .valueError => "valueError"
   | .ok d => s!"ok {showItems d}"
 
-/-- callable handlers the harness can name -/
-def parseOnDup (s : String) : OnDup :=
-  if s == "ignore" then .ignore
-  else if s == "accumulate" then .callable accumulate
-  else if s == "noop" then .callable (fun d _ _ => d)
-  else if s == "drop" then .callable (fun d k _ => dictDel d k)
-  else if s == "upper" then .callable (fun d k v => dictSet d k (.str (v ++ [33])))
-  else .replace
+/-- the setting as given: `absent`, `None`, `cb:<name>` for the callables the harness can name, else the string itself -/
+def parseOnDup (s : String) : OnDupArg :=
+  if s == "absent" then .absent
+  else if s == "None" then .pyNone
+  else if s == "cb:accumulate" then .callable accumulate
+  else if s == "cb:noop" then .callable (fun d _ _ => d)
+  else if s == "cb:drop" then .callable (fun d k _ => dictDel d k)
+  else if s == "cb:upper" then .callable (fun d k v => dictSet d k (.str (v ++ [33])))
+  else .str (ofS s)
 
 def parseRaw (s : String) : List (PStr × Option PStr) :=
   (splitNE "&" s).filterMap fun it =>
@@ -133,6 +142,7 @@ def parseStep (s : String) : Option Step :=
   | ["N", name, items] => some (.newTag (ptok name) (parseItems items))
   | ["C", i] => some (.copy i.toNat!)
   | ["M", i, key, op, arg] => some (.mutate i.toNat! (ptok key) (parseListOp op arg))
+  | ["T", i, x] => some (.ctor i.toNat! (x == "1"))
   | ["D", i, key] => some (.del i.toNat! (ptok key))
   | ["S", i, kv] =>
     match kv.splitOn "=" with
@@ -160,6 +170,7 @@ def showProbe (t : TagAttrs) (k : PStr) : String :=
 
 def handle : List String → String
   | ["split", s] => let r := splitWs (ptok s); if r.isEmpty then "-" else showToks r
+  | ["findall", s] => let r := findallNonWs (ptok s); if r.isEmpty then "-" else showToks r
   | ["join", l] => stok (joinSp (parseToks (if l == "-" then "" else l)))
   | ["lower", s] => stok (pyLower (ptok s))
   | ["multi", m, tag, attr] =>
@@ -174,7 +185,9 @@ def handle : List String → String
     showTag ((tagInit md pyLower cfg (isxml == "1") (ptok name) (parseAttrsArg attrs)).bind
       fun t => tagSetMany md t (parseSets sets))
   | ["parse", m, dcls, lcls, ondup, name, attrs] =>
-    showTag (parseStartTag md pyLower (mkCfg m dcls lcls) (parseOnDup ondup) (ptok name) (parseRaw attrs))
+    match parseStartTagArg md pyLower (mkCfg m dcls lcls) (parseOnDup ondup) (ptok name) (parseRaw attrs) with
+    | some r => showTag r
+    | none => "raised TypeError"
   | ["fmt", e, items] =>
     match attributeString md ⟨e == "1", id, otherPlaceholder⟩ (parseItems items) with
     | .ok s => "ok " ++ stok s
